@@ -406,6 +406,11 @@ class CallGraph:
             self._compute_effects()
         return self._wg.get(fn.key, set())
 
+    def ranges(self):
+        if getattr(self, "_ranges", None) is None:
+            self._ranges = ReadRanges(self)
+        return self._ranges
+
     def writes_unknown(self, fn):
         return "*" in self.writes_globals(fn)
 
@@ -461,10 +466,14 @@ def covers(ranges, lo, hi):
 
 
 class ReadRanges:
+    """byte ranges of each pointer parameter's pointee that a function may read / may write
+    (transitively through callees). Constant-offset accesses are exact; anything else is ALL."""
+
     def __init__(self, cg):
         self.cg = cg
         self.prog = cg.prog
-        self.rr = {}      # fn.key -> {param idx: [ranges]}
+        self.rr = {}      # fn.key -> {param idx: [ranges]}   reads
+        self.ww = {}      # fn.key -> {param idx: [ranges]}   writes
         self._compute()
 
     def _ptr(self, f, o, cache, depth=0):
@@ -505,23 +514,32 @@ class ReadRanges:
         cache[k] = r
         return r
 
+    @staticmethod
+    def _add(tbl, p, rng):
+        if p is None:
+            return
+        if p[1] is None or rng is None:
+            tbl.setdefault(p[0], []).append(ALL)
+        else:
+            tbl.setdefault(p[0], []).append((p[1] + rng[0], p[1] + rng[1]))
+
     def _compute(self):
         prog, cg = self.prog, self.cg
-        local = {}
+        lr, lw = {}, {}
         calls = {}
         for f in prog.functions():
-            rr = {}
+            rr, ww = {}, {}
             cs = []
             cache = {}
             for iid, ins in enumerate(f.insts):
                 op = ins["op"]
                 if op == "load":
-                    p = self._ptr(f, ins["ops"][0], cache)
-                    if p is not None:
-                        if p[1] is None:
-                            rr.setdefault(p[0], []).append(ALL)
-                        else:
-                            rr.setdefault(p[0], []).append((p[1], p[1] + ins["size"]))
+                    self._add(rr, self._ptr(f, ins["ops"][0], cache), (0, ins["size"]))
+                elif op == "store":
+                    self._add(ww, self._ptr(f, ins["ops"][1], cache), (0, ins["size"]))
+                elif op in ("atomicrmw", "cmpxchg"):
+                    self._add(ww, self._ptr(f, ins["ops"][0], cache), None)
+                    self._add(rr, self._ptr(f, ins["ops"][0], cache), None)
             for iid, res in cg.sites[f.key]:
                 ins = f.insts[iid]
                 ptrs = [self._ptr(f, o, cache) for o in ins["ops"]]
@@ -530,14 +548,12 @@ class ReadRanges:
                         cs.append((r[1].key, ptrs))
                     elif r[0] == "ext":
                         name = r[1]
-                        rd = ext_reads(name, ins)
-                        for i, rng in rd:
-                            if i < len(ptrs) and ptrs[i] is not None:
-                                pi, off = ptrs[i]
-                                if off is None or rng is None:
-                                    rr.setdefault(pi, []).append(ALL)
-                                else:
-                                    rr.setdefault(pi, []).append((off + rng[0], off + rng[1]))
+                        for i, rng in ext_reads(name, ins):
+                            if i < len(ptrs):
+                                self._add(rr, ptrs[i], rng)
+                        for i, rng in ext_write_ranges(name, ins):
+                            if i < len(ptrs):
+                                self._add(ww, ptrs[i], rng)
                     elif r[0] == "asm":
                         from . import asmfx
                         fx = asmfx.parse(ins["callee"][1], ins["callee"][2])
@@ -545,44 +561,63 @@ class ReadRanges:
                             if p is None:
                                 continue
                             if fx["opaque"]:
-                                rr.setdefault(p[0], []).append(ALL)
+                                self._add(rr, p, None)
+                                if fx["memclobber"]:
+                                    self._add(ww, p, None)
                                 continue
                             for rng in fx["reads"].get(i, []):
-                                if rng is None or p[1] is None:
-                                    rr.setdefault(p[0], []).append(ALL)
-                                else:
-                                    rr.setdefault(p[0], []).append((p[1] + rng[0], p[1] + rng[1]))
+                                self._add(rr, p, rng)
+                            if i in fx["writes"]:
+                                self._add(ww, p, None)
                     else:
                         for p in ptrs:
-                            if p is not None:
-                                rr.setdefault(p[0], []).append(ALL)
-            local[f.key] = rr
+                            self._add(rr, p, None)
+                            self._add(ww, p, None)
+            lr[f.key] = rr
+            lw[f.key] = ww
             calls[f.key] = cs
-        changed = True
-        while changed:
-            changed = False
-            for k, cs in calls.items():
-                rr = local[k]
-                for ck, ptrs in cs:
-                    crr = local.get(ck, {})
-                    for j, ranges in crr.items():
-                        if j < len(ptrs) and ptrs[j] is not None:
-                            pi, off = ptrs[j]
-                            cur = rr.setdefault(pi, [])
-                            before = _norm_ranges(cur)
-                            for lo, hi in ranges:
-                                if off is None or (lo, hi) == ALL:
-                                    cur.append(ALL)
-                                else:
-                                    cur.append((off + lo, off + hi))
-                            after = _norm_ranges(cur)
-                            rr[pi] = after
-                            if after != before:
-                                changed = True
-        self.rr = local
+        for local in (lr, lw):
+            changed = True
+            while changed:
+                changed = False
+                for k, cs in calls.items():
+                    tbl = local[k]
+                    for ck, ptrs in cs:
+                        ctbl = local.get(ck, {})
+                        for j, ranges in ctbl.items():
+                            if j < len(ptrs) and ptrs[j] is not None:
+                                pi, off = ptrs[j]
+                                cur = tbl.setdefault(pi, [])
+                                before = _norm_ranges(cur)
+                                for lo, hi in ranges:
+                                    if off is None or (lo, hi) == ALL:
+                                        cur.append(ALL)
+                                    else:
+                                        cur.append((off + lo, off + hi))
+                                after = _norm_ranges(cur)
+                                tbl[pi] = after
+                                if after != before:
+                                    changed = True
+        self.rr, self.ww = lr, lw
 
     def reads(self, fn, idx):
         return _norm_ranges(self.rr.get(fn.key, {}).get(idx, []))
+
+    def writes(self, fn, idx):
+        return _norm_ranges(self.ww.get(fn.key, {}).get(idx, []))
+
+
+def ext_write_ranges(name, ins):
+    for p in ("llvm.memcpy", "llvm.memmove", "llvm.memset"):
+        if name.startswith(p):
+            n = ins["ops"][2]
+            if n[0] == "i":
+                return [(0, (0, int(n[1])))]
+            return [(0, None)]
+    w = ext_writes(name)
+    if w is None:
+        return [(i, None) for i in range(len(ins["ops"]))]
+    return [(i, None) for i in w]
 
 
 def ext_reads(name, ins):
